@@ -4,10 +4,28 @@
 // inside the envelope |tx|,|ty| <= 0.2, |theta| <= 0.05, identity guess, fresh
 // FindRigidTransformationByICP(0.2) (the std the repository's own test uses).  RANSAC: synthetic
 // origin-centred correspondence sets with gross outliers, fresh model + Ransac, SVD model.
+#include <fenv.h>
 #include <fstream>
 #include "romea_core_common/transform/estimation/FindRigidTransformationByICP.hpp"
 #include "romea_core_common/transform/estimation/RansacRigidTransformationModel.hpp"
 #include "vh_points.hpp"
+
+// unmasks the floating-point traps around a library call (sticky flags cleared first so that the
+// stale flags every case is entered with cannot fire) and masks them again afterwards
+struct TrapScope
+{
+  bool on;
+  TrapScope(vh::Ctx & c, bool enable) : on(enable)
+  {
+    if (on) {
+      c.cat("fp_traps_unmasked_around_library_call");
+      feclearexcept(FE_ALL_EXCEPT);
+      feenableexcept(FE_DIVBYZERO | FE_INVALID | FE_OVERFLOW);
+    }
+  }
+  void end() {if (on) {fedisableexcept(FE_ALL_EXCEPT); feclearexcept(FE_ALL_EXCEPT); on = false;}}
+  ~TrapScope() {end();}
+};
 
 using namespace vhp;
 using namespace romea::core;
@@ -42,7 +60,12 @@ static void icp_case(vh::Ctx & c, const char * tname, const char * cat, double t
   }
   Eigen::Matrix<S, 3, 3> guess = Eigen::Matrix<S, 3, 3>::Identity();
   FindRigidTransformationByICP<P> icp(S(0.2));
+  // one registration in four runs the way a node being debugged runs it: division-by-zero, invalid
+  // and overflow exceptions unmasked (feenableexcept), so a pole error or 0/0 inside the library is a
+  // SIGFPE and not a silently absorbed inf/NaN
+  TrapScope traps(c, c.cur % 4 == 1);
   bool ok = icp.find(src, tgt, guess);
+  traps.end();
   Eigen::Matrix<double, 3, 3> T = Eigen::Matrix<double, 3, 3>::Identity();
   T(0, 0) = ct; T(0, 1) = -st; T(1, 0) = st; T(1, 1) = ct; T(0, 2) = tx; T(1, 2) = ty;
   Eigen::Matrix<double, 3, 3> H = icp.getTransformation().template cast<double>();
@@ -204,7 +227,9 @@ static void ransac_case(vh::Ctx & c, vh::Rng & r, const char * tname)
   model.loadPointSets(&Sx, &Tg);
   model.loadCorrespondences(&C, n);
   model.loadTargetNormalSet(nullptr);
+  TrapScope traps(c, c.cur % 4 == 1);
   bool ok = ransac.estimateModel();
+  traps.end();
   MatL Ttrue = MatL::Identity(D + 1, D + 1);
   Ttrue.block(0, 0, D, D) = R; Ttrue.block(0, D, D, 1) = t;
   MatL H = to_ld(model.getTransformation());
